@@ -554,6 +554,8 @@ func cmdCfgSync(args []string) error {
 			_ = w.apiPost("/api/v1/status/config", &shard.UpdateConfigRequest{RawContent: catalogueYAML}, nil)
 		}
 		promDown := len(done)%3 == 0
+		// the shard's Prometheus does not take the reload that the push of the edited configuration asks for (once)
+		reloadFails := !fileMode && !promDown && len(done)%2 == 1
 		coordYAML := e.YAML
 		if promDown || fileMode {
 			coordYAML = catalogueYAML
@@ -597,7 +599,9 @@ func cmdCfgSync(args []string) error {
 				_ = w.apiPost("/-/reload", nil, nil)
 			}
 		}
+		w.cfgFailNext = reloadFails
 		_ = c.VerifRunOnce()
+		w.cfgFailNext = false
 		applied := false
 		for _, r := range reqs {
 			if r == "targets" || r == "extra" {
@@ -616,6 +620,7 @@ func cmdCfgSync(args []string) error {
 		}
 		reqs1 := append([]string{}, reqs...)
 		reqs = reqs[:0]
+		mgr.ranAtApply = ""
 		_ = c.VerifRunOnce()
 		applied2, pushed2 := false, false
 		for _, r := range reqs {
@@ -625,7 +630,8 @@ func cmdCfgSync(args []string) error {
 		same2 := string(w.cfgm.ConfigInfo().RawContent) == coordYAML
 		_ = wr.Write(map[string]interface{}{"path": e.Path, "class": e.Class, "kind": e.Kind, "what": e.What, "withExtraConfig": withExtra, "prometheusWasDown": promDown, "sidecarInFileMode": fileMode,
 			"reqs": reqs1, "treatedInSync": applied, "shardRunsCoordinatorConfig": same, "pushed": pushed,
-			"reqs2": append([]string{}, reqs...), "treatedInSync2": applied2, "pushedAgain": pushed2, "shardRunsCoordinatorConfig2": same2})
+			"reqs2": append([]string{}, reqs...), "treatedInSync2": applied2, "pushedAgain": pushed2, "shardRunsCoordinatorConfig2": same2,
+			"reloadFailedAtPush": reloadFails, "prometheusRanCoordinatorConfigWhenTreatedInSync2": !applied2 || mgr.ranAtApply == coordYAML})
 		cleanupDir(dir)
 	}
 	return nil
@@ -636,8 +642,9 @@ type syncRM struct{ m *syncManager }
 func (r *syncRM) Replicas() ([]shard.Manager, error) { return []shard.Manager{r.m}, nil }
 
 type syncManager struct {
-	w    *sideWorld
-	reqs *[]string
+	w          *sideWorld
+	reqs       *[]string
+	ranAtApply string // what the shard's Prometheus ran with when the first targets / extra-config request of a cycle arrived
 }
 
 func (m *syncManager) ChangeScale(int32) error { return nil }
@@ -660,8 +667,14 @@ func (m *syncManager) Shards() ([]*shard.Shard, error) {
 			return err
 		case strings.HasSuffix(u, "/extra_config"):
 			*m.reqs = append(*m.reqs, "extra")
+			if m.ranAtApply == "" {
+				m.ranAtApply = m.w.loadedFrom
+			}
 		default:
 			*m.reqs = append(*m.reqs, "targets")
+			if m.ranAtApply == "" {
+				m.ranAtApply = m.w.loadedFrom
+			}
 		}
 		return m.w.apiPost(strip(u), req, ret)
 	}
